@@ -86,7 +86,9 @@ def execute(comp, keep=False):
         fr = e.__traceback__
         while fr.tb_next is not None:
             fr = fr.tb_next
-        res.update(status="exc", exc=dict(type=type(e).__name__, module=type(e).__module__, message=str(e)[:300],
+        import re
+        msg = re.sub(r"(0x|#)[0-9a-fA-F]{5,}", "#ADDR", str(e))      # jitclass type names embed object addresses
+        res.update(status="exc", exc=dict(type=type(e).__name__, module=type(e).__module__, message=msg[:300],
                                           frame=f"{fr.tb_frame.f_code.co_filename.split('/')[-1]}:{fr.tb_frame.f_code.co_name}"))
     return res
 
